@@ -148,9 +148,11 @@ Qed.
    is false as written (see `run_case_known_counterexample`); the correct coverage statement
    lists the three hook codes as well. *)
 Definition hook_ops : list N := [94; 95; 96].
+(* 99: the verdict of a harness-only oracle (see Model/Run.v); outside the master theorem *)
+Definition oracle_ops : list N := [99].
 
 (* every operation code the interpreter knows is covered *)
-Lemma run_case_known_fixed c : ~ In (c_op c) (all_ops ++ hook_ops) -> run_case c = OutOfFuel.
+Lemma run_case_known_fixed c : ~ In (c_op c) (all_ops ++ hook_ops ++ oracle_ops) -> run_case c = OutOfFuel.
 Proof.
   intros H. apply notin_existsb in H. unfold run_case.
   destruct (c_op c) as [|p]; [reflexivity|].
